@@ -36,6 +36,8 @@ def main():
         out["suite_passes"] = "100% tests passed" in b.stdout
         shutil.rmtree(os.path.join(wt, "_b"), ignore_errors=True)
         env = dict(os.environ); env["VERIF_REPO"] = wt
+        scratch = tempfile.mkdtemp(prefix="mutout_")
+        env["VERIF_OUT"] = os.path.join(scratch, "out"); env["VERIF_EVIDENCE"] = os.path.join(scratch, "evidence")
         out["checks"] = {}
         for p in props:
             t = time.time()
@@ -43,6 +45,7 @@ def main():
             lines = [l for l in c.stdout.splitlines() if l.startswith("VIOLATION") or l.startswith("  what")]
             out["checks"][p] = {"exit": c.returncode, "detected": c.returncode == 1 and any(l.startswith("VIOLATION") for l in lines),
                                 "first": lines[:2], "wall_s": round(time.time() - t, 1), "tail": c.stdout.strip().splitlines()[-1:] + c.stderr.strip().splitlines()[-2:]}
+        shutil.rmtree(scratch, ignore_errors=True)
     finally:
         sh("git -C /repo worktree remove --force %s" % wt)
         shutil.rmtree(wt, ignore_errors=True)
